@@ -128,8 +128,7 @@ Proof.
       * destruct (N.eqb w u) eqn:Ew.
         -- apply N.eqb_eq in Ew. subst w. cbn [negb]. unfold add_hz_if. intro H.
            assert (Hq : q <> AXmlns).
-           { intro E. subst q. unfold ns_for_prefix in Eq. destruct (all_empty (stk s)); [discriminate|].
-             inversion Eq. congruence. }
+           { intro E. subst q. simpl in Eq. inversion Eq. congruence. }
            apply emit_attr_plain_spec in H; [|apply decl_prefix_prefixed; assumption].
            destruct H as [Hin Hst]. exists q. split; [exact Hin|]. rewrite Hst. exact Eq.
         -- cbn [negb]. unfold add_hz_if. intro H. exfalso.
